@@ -496,3 +496,73 @@ def load(shim=True):
     install_env(mods)
     SWITCH.install(mods['xfrm'])
     return mods
+
+
+# ----------------------------------------------------------------------------- controller level
+class Ctl:
+    """an IkeSaController for IP2 (with its kernel ghost) and bare IkeSa initiators at IP1 that talk to it"""
+
+    def __init__(self, **conf_kw):
+        cf, ic = MODS['configuration'], MODS['ikesacontroller']
+        ENV.reset()
+        self.confdict = conf_dict(**conf_kw)
+        self.configuration = cf.Configuration([IP1, IP2], self.confdict)
+        self.E = Endpoint('C', None)
+        with self.E:
+            self.ctl = ic.IkeSaController(my_addrs=[IP2], configuration=self.configuration)
+        self.E.obj = self.ctl
+        self.initiators = []
+
+    def new_initiator(self):
+        ik = MODS['ikesa']
+        a = ik.IkeSa(is_initiator=True, peer_spi=b'\0' * 8, configuration=self.configuration.get_ike_configuration(IP1, IP2),
+                     my_addr=IP1, peer_addr=IP2)
+        ep = Endpoint(f'I{len(self.initiators)}', a)
+        self.initiators.append(ep)
+        return ep
+
+    def dispatch(self, data, my_addr=IP2, peer_addr=IP1):
+        with self.E:
+            return self.ctl.dispatch_message(data, my_addr, peer_addr)
+
+    def acquire_tss(self):
+        TS = MODS['message'].TrafficSelector
+        return (TS.from_network(ip_network('192.168.0.1/32'), 8765, TS.IpProtocol.TCP),
+                TS.from_network(ip_network('192.168.0.2/32'), 23, TS.IpProtocol.TCP))
+
+    def handshake(self, ep, upto=4):
+        """drive initiator `ep` against the controller; upto = number of datagrams exchanged (1..4) -> the entry created"""
+        tsi, tsr = self.acquire_tss()
+        m1 = ep.call(ep.obj.process_acquire, tsi, tsr, 1)
+        ep.last_sent = m1
+        if upto < 1:
+            return None
+        n0 = len(self.ctl.ike_sas)
+        m2 = self.dispatch(m1)
+        entry = self.ctl.ike_sas[-1] if len(self.ctl.ike_sas) > n0 else None
+        ep.entry = entry
+        if upto < 3 or m2 is None:
+            ep.last_received = m2
+            return entry
+        m3 = ep.call(ep.obj.process_message, m2)
+        ep.last_sent = m3
+        if upto < 4:
+            return entry
+        m4 = self.dispatch(m3)
+        r = ep.call(ep.obj.process_message, m4)
+        assert r is None
+        return entry
+
+    def rekey_ike(self, ep, deliver_delete=False):
+        """initiator `ep` rekeys its IKE_SA: controller entry -> REKEYED with the successor registered"""
+        a = ep.obj
+        ENV.now = a.rekey_ike_sa_at + 1
+        req = ep.call(a.check_rekey_ike_sa_timer)
+        ep.rekey_req = req
+        res = self.dispatch(req)
+        dele = ep.call(a.process_message, res)
+        ep.rekey_delete = dele
+        if deliver_delete:
+            r = self.dispatch(dele)
+            ep.call(a.process_message, r)
+        return req, res, dele
